@@ -62,6 +62,7 @@ type RunResult struct {
 	Funcs      []*FuncResult
 	BuildError string
 	Wall       float64
+	BodyFiles  []string
 }
 
 func loadProp(id string) (*PropConfig, error) {
@@ -122,6 +123,10 @@ func runProperty(pc *PropConfig, overlay map[string][]byte, timeoutS int, wantMo
 			rr.Funcs = append(rr.Funcs, &FuncResult{Key: f, Aborted: "no contract found for " + f + " (contract file missing or key changed)"})
 		}
 	}
+	for f := range eng.bodyFiles {
+		rr.BodyFiles = append(rr.BodyFiles, f)
+	}
+	sort.Strings(rr.BodyFiles)
 	// cover probes get a short budget: "unknown" is as good as "sat" for them
 	var covers, rest []*Obligation
 	for _, ob := range all {
@@ -664,6 +669,7 @@ func writeEvidence(pc *PropConfig, tier string, rr *RunResult, fails, violations
 		"checker_cmd":              fmt.Sprintf("/verif/check %s%s", pc.ID, map[string]string{"quick": "", "thorough": " --thorough"}[tier]),
 		"trusted_base":             trusted,
 		"functions_under_contract": funcs,
+		"files_with_bodies_read":   rr.BodyFiles,
 		"by_backend":               byBackend,
 		"solver_s":                 solverS,
 		"samples":                  samples,
